@@ -341,17 +341,40 @@ func (x *Exec) doReturn(st *State, i *ssa.Return) {
 		x.returns++
 		// a slice or map loaded from a guarded field must not escape the critical section by being returned
 		for _, rv0 := range i.Results {
-			cands := []ssa.Value{rv0}
-			if ld, ok := rv0.(*ssa.UnOp); ok && ld.Op == token.MUL {
-				if a, ok := ld.X.(*ssa.Alloc); ok && a.Referrers() != nil {
-					for _, ref := range *a.Referrers() {
-						if sto, ok := ref.(*ssa.Store); ok && sto.Addr == a {
-							cands = append(cands, sto.Val)
+			switch types.Unalias(rv0.Type()).Underlying().(type) {
+			case *types.Slice, *types.Map:
+			default:
+				continue
+			}
+			// every value the result may be derived from without copying: through local variables,
+			// re-slicing, type changes and phis
+			seen := map[ssa.Value]bool{}
+			work := []ssa.Value{rv0}
+			for len(work) > 0 && len(seen) < 200 {
+				rv := work[len(work)-1]
+				work = work[:len(work)-1]
+				if rv == nil || seen[rv] {
+					continue
+				}
+				seen[rv] = true
+				switch u := rv.(type) {
+				case *ssa.UnOp:
+					if u.Op == token.MUL {
+						if a, ok := u.X.(*ssa.Alloc); ok && a.Referrers() != nil {
+							for _, ref := range *a.Referrers() {
+								if sto, ok := ref.(*ssa.Store); ok && sto.Addr == ssa.Value(a) {
+									work = append(work, sto.Val)
+								}
+							}
 						}
 					}
+				case *ssa.Slice:
+					work = append(work, u.X)
+				case *ssa.ChangeType:
+					work = append(work, u.X)
+				case *ssa.Phi:
+					work = append(work, u.Edges...)
 				}
-			}
-			for _, rv := range cands {
 				if f := fieldOfLoaded(rv); f != "" {
 					for _, m := range x.CS.FieldModes[f] {
 						if m.Mode != "guarded_by" {
